@@ -36,7 +36,11 @@ Origins == [origin |-> <<0, 0, 0>>, offset |-> <<-15, 10, 400>>, uneven |-> <<4,
 \* cells per axis beyond N: on the "uneven" placement the axes have N, N + 1 and N + 3 cells, so that the node spacings differ
 \* also relative to the extent of the area (the classes work in coordinates normalised over the area)
 ExtraCells == [origin |-> <<0, 0, 0>>, offset |-> <<0, 0, 0>>, uneven |-> <<0, 1, 3>>]
-ASSUME PrintT(ToJson([spacing |-> Spacing, origins |-> Origins, extracells |-> ExtraCells]))
+\* function_boundaries handed to the constructor (quarters of a unit): none; a range containing every value of the function;
+\* a range the function exceeds; a degenerate range (min = max, which the classes accept).  The bounds only rescale the
+\* cached values internally: every result below is the same for each of them.
+Bounds == [wide |-> <<-28, 52>>, exceeded |-> <<2, 4>>, degenerate |-> <<8, 8>>]
+ASSUME PrintT(ToJson([spacing |-> Spacing, origins |-> Origins, extracells |-> ExtraCells, bounds |-> Bounds]))
 Axis == 0..(N - 1)
 Cells == IF Dim = 1 THEN {<<i>> : i \in Axis} ELSE IF Dim = 2 THEN {<<i, j>> : i \in Axis, j \in Axis} ELSE {<<i, j, k>> : i \in Axis, j \in Axis, k \in Axis}
 St(i) == (i - 1)..(i + 2)
